@@ -3,10 +3,17 @@ package props
 import (
 	"bytes"
 	"context"
+	"crypto/ecdsa"
+	"crypto/elliptic"
+	crand "crypto/rand"
+	"crypto/tls"
+	"crypto/x509"
+	"crypto/x509/pkix"
 	"errors"
 	"fmt"
 	"hash/fnv"
 	"io"
+	"math/big"
 	"net"
 	"sort"
 	"strings"
@@ -520,6 +527,13 @@ func c10Client(k *core.Case) {
 	dial := env.Net.Dialer("cl")
 	useResolver := r.Bool()
 	trp := &kafka.Transport{Dial: dial, ClientID: "verif-c10", MetadataTTL: time.Duration(core.Pick(r, 1, 5, 1000)) * time.Millisecond, IdleTimeout: time.Duration(core.Pick(r, 2, 20, 1000)) * time.Millisecond, DialTimeout: time.Second}
+	useTLS := r.Chance(1, 3)
+	if useTLS {
+		// TLS without a ServerName: the transport derives it from the broker address for every connection
+		trp.TLS = &tls.Config{RootCAs: c10TLS().pool}
+		dial = c10TLSBridge(dial)
+		trp.Dial = dial
+	}
 	if useResolver {
 		// the Resolver path looks idle connections up by resolved address (connGroup.grabConnTo)
 		trp.Resolver = c10Resolver{}
@@ -535,7 +549,7 @@ func c10Client(k *core.Case) {
 	client := &kafka.Client{Addr: kafka.TCP("b1:9092"), Transport: trp, Timeout: 2 * time.Second}
 	ng := r.Range(2, 8)
 	nops := r.Range(3, 10)
-	k.Describe(map[string]any{"list": "client", "goroutines": ng, "ops_each": nops, "metadata_ttl": trp.MetadataTTL.String(), "idle_timeout": trp.IdleTimeout.String(), "resolver": useResolver})
+	k.Describe(map[string]any{"list": "client", "goroutines": ng, "ops_each": nops, "metadata_ttl": trp.MetadataTTL.String(), "idle_timeout": trp.IdleTimeout.String(), "resolver": useResolver, "tls": useTLS})
 	tr := newC10Tracker()
 	ops := transportOps()
 	rs := make([]*core.Rand, ng)
@@ -552,7 +566,13 @@ func c10Client(k *core.Case) {
 				ctx, cancel := context.WithTimeout(context.Background(), time.Duration(core.Pick(rr, 2, 50, 2000))*time.Millisecond)
 				switch rr.Intn(10) {
 				case 0:
-					tr.do("Client.Metadata", func() { client.Metadata(ctx, &kafka.MetadataRequest{Topics: []string{connTopic}}) })
+					tr.do("Client.Metadata", func() {
+						if _, err := client.Metadata(ctx, &kafka.MetadataRequest{Topics: []string{connTopic}}); err == nil {
+							c.Count(fmt.Sprintf("client_metadata_ok:tls=%v,resolver=%v", useTLS, useResolver), 1)
+						} else {
+							c.Count(fmt.Sprintf("client_metadata_failed:tls=%v,resolver=%v", useTLS, useResolver), 1)
+						}
+					})
 				case 1:
 					tr.do("Client.ListOffsets", func() {
 						client.ListOffsets(ctx, &kafka.ListOffsetsRequest{Topics: map[string][]kafka.OffsetRequest{connTopic: {kafka.FirstOffsetOf(0), kafka.LastOffsetOf(1)}}})
@@ -603,6 +623,63 @@ func c10Client(k *core.Case) {
 	}
 	wg.Wait()
 	tr.report(c, "Client")
+}
+
+// TLS for the fake cluster: the dial function hands the library one end of an in-memory pipe whose
+// other end is a TLS server bridged to the plaintext fake broker.
+type c10TLSMaterial struct {
+	pool   *x509.CertPool
+	server *tls.Config
+}
+
+var c10TLSOnce sync.Once
+var c10TLSMat c10TLSMaterial
+
+func c10TLS() c10TLSMaterial {
+	c10TLSOnce.Do(func() {
+		key, err := ecdsa.GenerateKey(elliptic.P256(), crand.Reader)
+		if err != nil {
+			panic(err)
+		}
+		tmpl := &x509.Certificate{SerialNumber: big.NewInt(1), Subject: pkix.Name{CommonName: "verif fake cluster"},
+			NotBefore: time.Now().Add(-time.Hour), NotAfter: time.Now().Add(240 * time.Hour),
+			KeyUsage: x509.KeyUsageDigitalSignature | x509.KeyUsageCertSign, ExtKeyUsage: []x509.ExtKeyUsage{x509.ExtKeyUsageServerAuth},
+			BasicConstraintsValid: true, IsCA: true, DNSNames: []string{"b1", "b2", "b3", "b4", "b5"},
+			IPAddresses: []net.IP{net.IPv4(10, 0, 0, 1), net.IPv4(10, 0, 0, 2), net.IPv4(10, 0, 0, 3)}}
+		der, err := x509.CreateCertificate(crand.Reader, tmpl, tmpl, &key.PublicKey, key)
+		if err != nil {
+			panic(err)
+		}
+		cert, _ := x509.ParseCertificate(der)
+		pool := x509.NewCertPool()
+		pool.AddCert(cert)
+		c10TLSMat = c10TLSMaterial{pool: pool, server: &tls.Config{Certificates: []tls.Certificate{{Certificate: [][]byte{der}, PrivateKey: key}}}}
+	})
+	return c10TLSMat
+}
+
+func c10TLSBridge(inner func(context.Context, string, string) (net.Conn, error)) func(context.Context, string, string) (net.Conn, error) {
+	return func(ctx context.Context, network, addr string) (net.Conn, error) {
+		back, err := inner(ctx, network, addr)
+		if err != nil {
+			return nil, err
+		}
+		front, far := net.Pipe()
+		srv := tls.Server(far, c10TLS().server)
+		go func() {
+			defer back.Close()
+			defer srv.Close()
+			if err := srv.Handshake(); err != nil {
+				return
+			}
+			go func() {
+				io.Copy(back, srv)
+				back.Close()
+			}()
+			io.Copy(srv, back)
+		}()
+		return front, nil
+	}
 }
 
 // c10Resolver resolves broker bN to 10.0.0.N.
